@@ -7,7 +7,9 @@ PROPERTY = "C02"
 TRACE_MODULE = "PipelineTrace"
 TRACE_CFG = "PipelineTrace.cfg"
 RULE = ("random exact-domain UFOs (line / quadratic / cubic contours, nested mirrored / sheared / scaled components, mixed "
-        "glyphs) x {convertCubics, reverseDirection, flattenComponents} x {defcon, ufoLib2}; compiled with compileTTF, saved, "
+        "glyphs) x {convertCubics, reverseDirection, flattenComponents} x {defcon, ufoLib2} (every fourth converting case with an "
+        "explicit cubicConversionError in 0.0001..0.002 and / or unitsPerEm in 100..2000, where the deviation of the unrounded "
+        "TTFPreProcessor result from the source is measured against the configured bound); compiled with compileTTF, saved, "
         "reloaded; glyf points, flags, end points, components and maxp projected; plus families of 2-3 masters through "
         "compileInterpolatableTTFs / ...FromDS with a mixed glyph holding a 4-8x enlarged component of a small cubic shape (the "
         "conversion error is measured on the decomposed result); non-trivial = font has a composite or "
@@ -34,9 +36,17 @@ def cases(tier, seed):
         glyphs = gen.glyphset(rng, kinds=kinds, palette=PALETTE_TT, unicodes=True)
         kwargs = {"convertCubics": convert, "reverseDirection": rng.random() < 0.8,
                   "flattenComponents": rng.random() < 0.5}
+        info = {"unitsPerEm": 1000, "ascender": 800, "descender": -200}
+        measure = False
+        if convert and k % 4 == 0:
+            # other tolerances: an explicit conversion error and / or a small em, so that the bound is well below one unit
+            if rng.random() < 0.6:
+                kwargs["cubicConversionError"] = rng.choice([0.0001, 0.0002, 0.0005, 0.002])
+            if rng.random() < 0.5:
+                info["unitsPerEm"] = rng.choice([100, 200, 500, 2000])
+            measure = True
         out.append({"cid": f"c02-{seed}-{k}", "lib": rng.choice(["ufoLib2", "defcon"]), "flavor": "tt",
-                    "ufo": {"glyphs": glyphs, "info": {"unitsPerEm": 1000, "ascender": 800, "descender": -200}},
-                    "kwargs": kwargs})
+                    "ufo": {"glyphs": glyphs, "info": info}, "kwargs": kwargs, "measureUnrounded": measure})
     # the interpolatable TrueType path: 2-3 compatible masters; a MIXED glyph (own contour + a much enlarged component of a
     # small cubic shape) must be decomposed from the cubic source, so that the conversion error is not enlarged with it
     from ..absfont import MS, PS
